@@ -91,7 +91,7 @@ var vfC02Shapes = [][2]string{
 	{"POLYGON((0 0,4 0,4 4,0 4,0 0))", "MULTIPOINT(0 0,2 2,9 9)"},                                         // points on vertex, inside, outside
 	{"LINESTRING(0 0,4 0)", "MULTIPOINT(0 0,2 0)"},                                                        // points on end and interior
 	{"MULTIPOLYGON(((0 0,2 0,2 2,0 2,0 0)),((2 2,4 2,4 4,2 4,2 2)))", "LINESTRING(0 2,2 2,4 2)"},          // line through the touching vertex
-	{"GEOMETRYCOLLECTION(POLYGON((0 0,2 0,2 2,0 2,0 0)),LINESTRING(3 0,5 0),POINT(7 7))", "LINESTRING(1 1,4 0,7 7)"},
+	{"GEOMETRYCOLLECTION(POLYGON((0 0,2 0,2 2,0 2,0 0)),LINESTRING(3 0,5 0),POINT(7 7))", "LINESTRING(1 1,5 -1,7 7)"},
 }
 
 // Relate on concrete operands against the definition, cell by cell: a cell is
